@@ -39,6 +39,11 @@ for line in sys.stdin:
 					ops.append(bytes.fromhex(h).decode('ascii'))
 			for x in ops:
 				out += ' %d%d%d%d%d%d' % (a < x, a > x, a == x, a != x, a <= x, a >= x)
+			# the other views of the instant: datetime and time struct, and dates built from them
+			dt, st = a.datetime, a.gmtime
+			out += ' %s %d %d %s %d' % (dt.isoformat(), int(Date(dt)), a == dt, '-'.join(str(v) for v in tuple(st)[:6]), int(Date(st)))
+			bd, bs = b.datetime, b.gmtime
+			out += ' %d%d%d %d%d%d' % (a < bd, a > bd, a == bd, a < bs, a > bs, a == bs)
 			print(out)
 		else:
 			print('bad-op')
